@@ -1349,7 +1349,7 @@ def run_inner(ctx):
     lrng = C.rng_for(seed, "c07-lean-sample")
     tier = ctx["tier"]
     thorough = tier == "thorough"
-    n_scen = C.Budget(tier, 120, 200).n
+    n_scen = C.Budget(tier, 95, 200).n
     n_sweep = 0 if not thorough else max(1, n_scen // 10)  # scenarios whose every delivery / datagram is dropped in turn
     drops_per = 6 if not thorough else 20
     dgram_per = 4 if not thorough else 10
